@@ -53,6 +53,28 @@ Two layers.
     itself> | <file written by compute_total_coloring(fname=)> | no argument = the standard file of the coloring
     directory of a problem of the same name | pickled / deep-copied object); a third problem reads the file problem 2
     re-saved.  Each problem's compute_totals (twice, with / without driver scaling) == uncolored twin == closed form.
+
+(b5) HISTORIES ('history' shards, omv/gen/c03_hist.py): ONE component that colours its own partials - ExecComp with
+    its automatic colouring (twin: do_coloring=False), ExecComp / explicit / implicit harness component with
+    declare_partials(method cs | fd, form) + declare_coloring (twin: no declare_coloring) - below an ivc (optionally
+    behind a scaling component, optionally solved by Newton), set up with force_alloc_complex=True (10 %: real
+    vectors), is driven through a history of public-API operations that leave imaginary parts / perturbations in the
+    vectors or need them clean: compute_totals, a hand-made complex step (set_complex_step_mode(True); set_val(x + ihd);
+    run_model; set_complex_step_mode(False)), check_partials(cs | fd), check_totals(cs | fd) (with Newton: the model's
+    complex step makes Newton linearize the component UNDER complex step), run_linearize, run_model, a new point;
+    the first dirtying operation comes before or after the colouring exists.  The coloured problem and its twin get the
+    same history; every derivative either returns (totals, check_partials' J_fwd of the component, check_totals'
+    J_fwd / J_rev, the hand-made directional derivative, the model-level cs totals through Newton) must equal the
+    closed form at the current point and the twin's value, and the component's outputs must stay what the model
+    computed.  Counters show that a linearization that REUSES a colouring really met imaginary parts in its inputs.
+
+(b6) APPROXIMATED TOTALS ('atot' shards): 1-3 independent chains ivc.x_k -> c_k (y_k = A_k g(x_k)), optionally an
+    objective over one / two chains, a component joining two chains, a component no response depends on;
+    model.approx_totals(cs | fd, form) with the colouring declared on the driver (computed by an optimizer run), on the
+    model, or both; design variables and constraints with indices (sorted / unordered sub-lists), scalers.  Calls:
+    compute_totals twice, then Driver._compute_totals / driver-scaled totals / a new point.  Coloured == uncoloured twin
+    == closed form; the call during which the colouring is computed is judged too (separate key class, does not end the
+    sequence).
 """
 import itertools
 import random
@@ -79,7 +101,12 @@ RULE = ('contract layer: ALL boolean patterns of the enumerated shapes x {fwd, r
         '(sub-sampled except for colorings with subtractions), reload layer: total (dense-row-and-column patterns '
         'up to 9x9, mode, direct / substitution, scaling) and partial colorings x way the second problem receives '
         'the coloring {saved file, run-1 file, offline file, standard directory, third run, pickled / deep-copied '
-        'object}; '
+        'object}; history layer: component kind {ExecComp automatic, ExecComp / explicit / implicit with '
+        'declare_coloring} x method {cs, fd x form} x {complex, real vectors} x random histories of compute_totals / '
+        'hand-made complex step / check_partials / check_totals / run_linearize / run_model / new point (dirtied before '
+        'or after the colouring exists, Newton linearizing under complex step); approximated-totals layer: 1-3 '
+        'independent chains x {cs, fd} x colouring declared on {driver, model, both} x design-variable / constraint '
+        'indices x objective / joining / idle component x call sequence; '
         'distinct = distinct (pattern, mode, direct) resp. structural description; non-trivial = pattern has at '
         'least two nonzero columns and rows resp. the coloring was actually used')
 LEVEL_TEXT = ('exhaustive over the enumerated shapes for the coloring/reconstruction contract; sampled for larger '
@@ -95,6 +122,15 @@ ASSUMPTIONS = ['matrix entries in [1, 2]: no cancellation, reconstruction is exa
                'UNCOLORED twin already differs from the closed form is not judged (counted)',
                'Driver._compute_totals() (private) is called without arguments only - it is what every optimizer '
                'driver calls each iteration',
+               'history layer: only operations of the public API in their documented order; check_partials never '
+               'with the method + step the component approximates with (OpenMDAO refuses that comparison); ExecComps '
+               'are not given to check_partials (it leaves them out) and never sit under a complex-stepped Newton solve '
+               '(documented RuntimeError); an operation on which the UNCOLOURED twin raises or differs from the closed '
+               'form ends the case unjudged (counted) - what stale imaginary parts do to uncoloured approximations is not '
+               'C03; tolerances: cs 1e-11 relative, fd = step/2 * bound of the second derivatives + 64 eps |f| / step, '
+               'Newton adds the error of a solve with the approximated dR/dy',
+               'approximated-totals layer: a colouring declared on the driver only is computed by an optimizer run '
+               '(one SLSQP iteration), declared on the model by the first linearization',
                'copies: a copy / reloaded coloring must hold the same plain data as the original (groups, nonzero '
                'maps, subtraction list in the same order); None, {} and [] all mean "no subtractions"; Coloring.load '
                'may ADD metadata (timestamp, source) '
@@ -132,7 +168,17 @@ REQUIRED_COUNTERS = ['contract:evaluations', 'contract:fwd', 'contract:rev', 'co
                      'cell:reload/total/third-run', 'cell:reload/total/compute_total_coloring-fname',
                      'cell:reload/total/pickled-object', 'cell:reload/total/deepcopied-object',
                      'cell:reload/partial/file', 'cell:reload/partial/run1-file', 'cell:reload/partial/std-dir',
-                     'cell:reload/partial/third-run', 'cell:reload/partial/pickled-object']
+                     'cell:reload/partial/third-run', 'cell:reload/partial/pickled-object',
+                     'obs:hist-colored-vs-uncolored', 'cell:hist/exec-auto', 'cell:hist/exec-declared',
+                     'cell:hist/pat-explicit', 'cell:hist/pat-implicit', 'cell:hist/cs', 'cell:hist/fd',
+                     'cell:hist/totals-after-manual-cs', 'cell:hist/totals-after-check-totals',
+                     'cell:hist/totals-after-check-partials', 'cell:hist/dirtied-before-the-coloring-exists',
+                     'cell:hist/imaginary-residue-in-the-inputs-of-a-linearization-that-reuses-the-coloring/exec-auto',
+                     'cell:hist/imaginary-residue-in-the-inputs-of-a-linearization-that-reuses-the-coloring',
+                     'obs:hist-op/manual-cs', 'obs:hist-op/check-totals', 'obs:hist-op/check-partials',
+                     'obs:atot-colored-vs-uncolored', 'cell:atot/cs', 'cell:atot/fd', 'cell:atot/decl-driver',
+                     'cell:atot/decl-model', 'cell:atot/decl-both', 'cell:atot/dv-indices-and-several-chains',
+                     'cell:atot/con-indices', 'cell:atot/chains-2', 'cell:atot/chains-3']
 SHARD_TIMEOUT = {'quick': 900, 'thorough': 3000}
 
 _state = {'acc': None, 'installed': False, 'depth': 0, 'ctx': None}
@@ -1747,6 +1793,339 @@ EXEC_FAMILIES = [['y = 3*a + b**2', 'z = a*b'], ['y = sin(a)', 'z = 2*b'], ['y =
 
 
 # ----------------------------------------------------------------------------------------------
+# (b5) framework layer, HISTORIES: a component that colours its own partials is linearized after operations that leave
+#      imaginary parts / perturbations in its vectors
+# ----------------------------------------------------------------------------------------------
+_EPS = float(np.finfo(float).eps)
+
+
+def _fd_bound(curv, fmax, form=None, step=1e-6):
+    """Error bound of a finite difference with absolute step `step`: truncation (forward / backward: step/2 * |f''|;
+    central: 0 for the quadratics used here - the same bound is kept) + round-off of the difference."""
+    return 1.01 * 0.5 * step * curv + 64.0 * _EPS * max(fmax, 1.0) / step
+
+
+def run_hist_case(case, acc):
+    """The same history of public-API operations on the problem whose component colours its own partials and on its
+    uncoloured twin; every derivative either of them returns must equal the closed form at the current point, and the
+    component's outputs must stay what the model computed."""
+    from omv.gen import c03_hist as H
+    install(acc)
+    _state['ctx'] = 'history'
+    comp, method = case['comp'], case['method']
+    n1, n2, m1, m2 = case['sizes']
+    newton = bool(case.get('newton'))
+    ps = {}
+    of, wrt = ['c.y', 'c.z'], ['ivc.a', 'ivc.b']
+    prev = 'clean'          # the last operation that may have left something behind
+    pos = -1
+
+    def key(op, obs):
+        return 'hist:%s:%s:%s-after-%s:%s' % (comp, method, op, prev, obs)
+
+    try:
+        try:
+            c0 = acc.counters.get('hook:_colored_column_iter', 0)
+            ps[True] = H.build_hist(case, True)
+            ps[False] = H.build_hist(case, False)
+        except Exception as e:
+            acc.viol('hist:%s:%s:setup:raises:%s' % (comp, method, type(e).__name__), str(e)[:300], case)
+            return
+        x = np.array(case['x0'], dtype=float)
+        cells = set()
+        residue_seen = False
+        for pos, o in enumerate(case['ops']):
+            op = o['op']
+            if op == 'new-point':
+                x = np.array(o['x'], dtype=float)
+            u, out, Jp, chain, curv = H.hist_closed(case, x)
+            Jt = Jp * chain[None, :]
+            fmax = float(np.abs(out).max())
+            jmax = max(np.abs(Jp).max(), 1.0)
+            rnd = _fd_bound(0.0, fmax)
+            # error of one entry of the partials the component approximates
+            tol_p = 1e-11 * jmax if method == 'cs' else _fd_bound(curv, fmax, case.get('form'))
+            # totals: d out / d u times the chain (<= 2); an implicit component's totals are (dR/dy)^-1 dR/du with an
+            # approximated dR/dy = I + Ey as well (R is linear in y: Ey is round-off only)
+            tol_t = 2.0 * (tol_p + ((1e-11 if method == 'cs' else rnd) * jmax * (m1 + m2) if comp == 'pat-implicit'
+                                    else 0.0))
+            # Newton under complex step: the approximations fall back to forward differences with the default step;
+            # one Newton step with dR/du off by Eu and dR/dy off by Ey leaves (Eu + Ey |J|) |du| in the imaginary part
+            e_ucs = _fd_bound(curv, fmax) + rnd * jmax * (m1 + m2)
+            res = {}
+            for colored in (True, False):
+                p = ps[colored]
+                try:
+                    if op == 'totals':
+                        if colored and case['cplx'] and np.any(p.model.c._inputs._data.imag != 0.0):
+                            residue_seen = True
+                            if p.model.c._coloring_info.coloring is not None:
+                                cells.add('imaginary-residue-in-the-inputs-of-a-linearization-that-reuses-the-coloring')
+                        res[colored] = {'J': np.array(p.compute_totals(of=of, wrt=wrt, return_format='array'))}
+                    elif op == 'manual-cs':
+                        h, d = o['h'], np.array(o['d'], dtype=float)
+                        p.set_complex_step_mode(True)
+                        try:
+                            p.set_val('ivc.a', x[:n1] + 1j * h * d[:n1])
+                            p.set_val('ivc.b', x[n1:] + 1j * h * d[n1:])
+                            p.run_model()
+                            res[colored] = {'dir': np.concatenate([p.get_val('c.y').imag, p.get_val('c.z').imag]) / h}
+                        finally:
+                            p.set_complex_step_mode(False)
+                    elif op == 'new-point':
+                        p.set_val('ivc.a', x[:n1])
+                        p.set_val('ivc.b', x[n1:])
+                        p.run_model()
+                    elif op == 'run-model':
+                        p.run_model()
+                    elif op == 'linearize':
+                        p.model.run_linearize()
+                    elif op == 'check-partials':
+                        kw = {'method': o['method']}
+                        if o.get('step'):
+                            kw['step'] = o['step']
+                        data = p.check_partials(out_stream=None, includes=['c'], **kw)
+                        blk = {}
+                        for (a, b), dd in data['c'].items():
+                            if a in ('y', 'z') and b in ('a', 'b'):
+                                blk[a, b] = np.atleast_2d(np.array(dd['J_fwd']))
+                        sign = -1.0 if comp == 'pat-implicit' else 1.0
+                        res[colored] = {'Jp': sign * np.block([[blk['y', 'a'], blk['y', 'b']],
+                                                               [blk['z', 'a'], blk['z', 'b']]])}
+                    elif op == 'check-totals':
+                        data = p.check_totals(of=of, wrt=wrt, method=o['method'], out_stream=None)
+                        which = {}
+                        for nm in ('J_fwd', 'J_rev', 'J_fd'):
+                            if all(nm in data[a, b] and data[a, b][nm] is not None for a in of for b in wrt):
+                                which[nm] = np.block([[np.atleast_2d(np.array(data[a, b][nm])) for b in wrt]
+                                                      for a in of])
+                        res[colored] = which
+                    yv = np.concatenate([np.array(p.get_val('c.y')).real, np.array(p.get_val('c.z')).real])
+                    res.setdefault(colored, {})['out'] = yv
+                except Exception as e:
+                    res[colored] = e
+            if isinstance(res[False], Exception):
+                acc.skip('history-uncolored-twin-raises(not C03):%s%s:%s-after-%s:%s' % (
+                    comp, '+newton' if newton else '', op, prev, type(res[False]).__name__))
+                return
+            if isinstance(res[True], Exception):
+                acc.viol(key(op, 'raises:%s' % type(res[True]).__name__), 'operation %d of the history: %s; the '
+                         'uncoloured twin does not raise' % (pos, str(res[True])[:300]), case)
+                return
+            # --- judge
+            acc.count('obs:hist-op/%s' % op)
+            exp = {'J': (Jt, tol_t), 'J_fwd': (Jt, tol_t), 'J_rev': (Jt, tol_t), 'Jp': (Jp, tol_p),
+                   'out': (out, 1e-9 * max(fmax, 1.0) if newton else 1e-12 * max(fmax, 1.0))}
+            if op == 'manual-cs':
+                dd = np.abs(np.array(o['d'], dtype=float))
+                exp['dir'] = (Jt.dot(np.array(o['d'], dtype=float)),
+                              2.0 * e_ucs * (chain * dd).sum() if newton else 1e-11 * 2.0 * jmax * dd.sum())
+            if op == 'check-totals' and newton and o['method'] == 'cs':
+                # the whole model runs under complex step, Newton linearizes the component there (its approximations
+                # fall back to finite differences): right only if the coloured dR/dy is right
+                exp['J_fd'] = (Jt, 2.0 * e_ucs * chain.max())
+                cells.add('newton-linearizes-under-cs')
+            for nm, (want, tol) in exp.items():
+                if nm not in res[False]:
+                    continue
+                if res[False][nm].shape != want.shape or np.any(np.abs(res[False][nm] - want) > tol):
+                    acc.skip('history-uncolored-twin-differs-from-closed-form(not C03):%s%s:%s-after-%s:%s' % (
+                        comp, '+newton' if newton else '', op, prev, nm))
+                    if _state.get('debug'):
+                        print('TWIN', nm, np.abs(res[False][nm] - want).max(), tol, case)
+                    return
+            for nm, (want, tol) in exp.items():
+                if nm not in res[False]:
+                    continue
+                got = res[True].get(nm)
+                bad = got is None or got.shape != want.shape or np.any(np.abs(got - want) > tol) or \
+                    np.any(np.abs(got - res[False][nm]) > 2 * tol) or not np.all(np.isfinite(got))
+                if bad:
+                    obs = 'outputs-changed' if nm == 'out' else 'colored-differs-from-uncolored'
+                    dmax = float(np.abs(got - want).max()) if got is not None and got.shape == want.shape else None
+                    acc.viol(key(op, obs), 'operation %d (%s) of the history %s, observable %s: max|colored - exact| = %r '
+                             '(tolerance %.3g), uncoloured twin within tolerance' %
+                             (pos, op, [q['op'] for q in case['ops']], nm, dmax, tol), case)
+                    return
+            if op == 'totals':
+                cells.add('totals-after-%s' % prev)
+                if pos > 0 and case['ops'][0]['op'] != 'totals' and all(q['op'] != 'totals'
+                                                                          for q in case['ops'][:pos]):
+                    cells.add('dirtied-before-the-coloring-exists')
+                prev = 'clean'
+            elif op in H.DIRTY:
+                prev = op
+            elif op in ('run-model', 'new-point'):
+                prev = prev if prev == 'clean' else prev + '+run_model'
+            elif op == 'linearize':
+                prev = prev if prev == 'clean' else prev + '+linearize'
+        cinfo = ps[True].model.c._coloring_info
+        used = (acc.counters.get('hook:_colored_column_iter', 0) > c0) if comp != 'exec-auto' else \
+            cinfo.coloring is not None
+        if not used:
+            acc.skip('history-coloring-not-used')
+            return
+        acc.count('obs:hist-colored-vs-uncolored')
+        acc.count('cell:hist/%s' % comp)
+        acc.count('cell:hist/%s' % method)
+        if residue_seen:
+            acc.count('obs:hist-imaginary-residue-in-inputs-at-linearization')
+            if comp == 'exec-auto':
+                acc.count('obs:hist-imaginary-residue-in-inputs-at-linearization/exec-auto')
+        if not case['cplx']:
+            acc.count('cell:hist/real-vectors')
+        for cnm in cells:
+            acc.count('cell:hist/%s' % cnm)
+            if cnm.startswith('imaginary-residue'):
+                acc.count('cell:hist/%s/%s' % (cnm, comp))
+        acc.ok(fingerprint(['history', comp, method, case.get('form'), case['sizes'], case.get('fam'),
+                            (np.array(case['A']) != 0).astype(int).tolist() if 'A' in case else None,
+                            case['pre'], case['cplx'], newton, case['mode'],
+                            [(q['op'], q.get('method')) for q in case['ops']]]), nontrivial=True,
+               sample=case if case['idx'] % 29 == 0 else None)
+    finally:
+        _state['ctx'] = None
+        for q in ps.values():
+            try:
+                q.cleanup()
+            except Exception:
+                pass
+
+
+# ----------------------------------------------------------------------------------------------
+# (b6) framework layer, APPROXIMATED TOTALS with a colouring: several independent chains, design variables / responses
+#      with indices
+# ----------------------------------------------------------------------------------------------
+def run_atot_case(case, acc):
+    """Approximated totals (model.approx_totals) with a colouring against the uncoloured twin and the closed form, for
+    a short sequence of compute_totals / Driver._compute_totals calls.  The call during which the colouring is computed
+    (the first one, when the colouring is declared on the model) is judged like any other, but a violation there does
+    not end the sequence, so that it cannot hide what the calls that USE the colouring do."""
+    import contextlib
+    import io
+    from omv.gen import c03_hist as H
+    install(acc)
+    _state['ctx'] = 'atot'
+    ps = {}
+    method = case['method']
+    tag = '%s:decl-%s' % (method, case['decl'])
+    has_idx = any(v is not None for v in case['didx'])
+    has_cidx = any(v is not None for v in case['cidx'])
+    idxtag = ('dv-indices' if has_idx else 'dv-full') + ('+con-indices' if has_cidx else '')
+    call = 'setup'
+    bad = False
+
+    def cclass(pos):
+        return 'call-that-computes-the-coloring' if pos == 0 and case['decl'] != 'driver' else 'coloring-exists'
+
+    try:
+        try:
+            c0 = acc.counters.get('hook:_colored_column_iter', 0)
+            ps[True] = H.build_atot(case, True)
+            ps[False] = H.build_atot(case, False)
+            xs = [np.array(v, dtype=float) for v in case['x0']]
+            if case['decl'] == 'driver':
+                # the optimizer run computes the colouring (one SLSQP iteration); then back to the point
+                call = 'run_driver'
+                with contextlib.redirect_stdout(io.StringIO()):
+                    ps[True].run_driver()
+                for k, v in enumerate(xs):
+                    ps[True].set_val('ivc.x%d' % k, v)
+                ps[True].run_model()
+        except Exception as e:
+            acc.viol('atot:%s:%s:%s:raises:%s' % (call, idxtag, tag, type(e).__name__), str(e)[:300], case)
+            return
+        ncalls = 0
+        for pos, call in enumerate(case['calls']):
+            if call == 'new-point':
+                xs = [np.array(v, dtype=float) for v in case['x1']]
+                for p in ps.values():
+                    for k, v in enumerate(xs):
+                        p.set_val('ivc.x%d' % k, v)
+                    p.run_model()
+                continue
+            scaled = call in ('driver', 'totals-scaled')
+            Jx, fmax = H.atot_closed(case, xs, scaled)
+            res = {}
+            for colored in (True, False):
+                p = ps[colored]
+                try:
+                    if call == 'driver':
+                        res[colored] = np.array(p.driver._compute_totals(return_format='array'))
+                    else:
+                        res[colored] = np.array(p.compute_totals(return_format='array', driver_scaling=scaled))
+                except Exception as e:
+                    res[colored] = e
+            if isinstance(res[False], Exception):
+                acc.skip('atot-uncolored-twin-raises(not C03)')
+                return
+            if isinstance(res[True], Exception):
+                acc.viol('atot:%s:%s:%s:raises:%s' % (cclass(pos), idxtag, tag, type(res[True]).__name__),
+                         'call %d (%s): %s; the uncoloured twin does not raise' % (pos, call, str(res[True])[:300]),
+                         case, new_case=not bad)
+                return
+            sc = 1.0
+            if scaled and case.get('scaling'):
+                sc = max(case['cons'] + [1.0]) / min(case['dvs'] + [1.0])
+            if method == 'cs':
+                tol = 1e-11 * max(np.abs(Jx).max(), 1.0)
+            else:
+                tol = _fd_bound(H.atot_curvature(case, xs), fmax, case.get('form')) * sc
+            if res[False].shape != Jx.shape or np.any(np.abs(res[False] - Jx) > tol):
+                acc.skip('atot-uncolored-twin-differs-from-closed-form(not C03)')
+                return
+            got = res[True]
+            if got.shape != Jx.shape or np.any(np.abs(got - Jx) > tol) or np.any(np.abs(got - res[False]) > 2 * tol):
+                if got.shape != Jx.shape:
+                    what = 'shape %s, expected %s' % (got.shape, Jx.shape)
+                else:
+                    d = np.abs(got - Jx)
+                    k = np.unravel_index(np.argmax(d), d.shape)
+                    zero_cols = [int(j) for j in range(Jx.shape[1]) if np.all(got[:, j] == 0) and np.any(Jx[:, j] != 0)]
+                    what = 'entry %s colored %r exact %r; %d of %d entries wrong; columns all zero: %s' % (
+                        tuple(int(v) for v in k), got[k], Jx[k], int((d > tol).sum()), d.size, zero_cols)
+                acc.viol('atot:%s:%s:%s:colored-differs-from-uncolored' % (cclass(pos), idxtag, tag),
+                         'call %d (%s), %d chains, design-variable indices %s, constraint indices %s: %s' %
+                         (pos, call, len(case['chains']), case['didx'], case['cidx'], what), case, new_case=not bad)
+                if bad or cclass(pos) == 'coloring-exists':
+                    return
+                bad = True
+                continue
+            ncalls += 1
+        if bad:
+            return
+        if acc.counters.get('hook:_colored_column_iter', 0) <= c0 or ps[True].model._coloring_info.coloring is None:
+            acc.skip('atot-coloring-not-used')
+            return
+        acc.count('obs:atot-colored-vs-uncolored')
+        acc.count('cell:atot/%s' % method)
+        acc.count('cell:atot/decl-%s' % case['decl'])
+        acc.count('cell:atot/chains-%d' % len(case['chains']))
+        if has_idx:
+            acc.count('cell:atot/dv-indices')
+            if len(case['chains']) > 1:
+                acc.count('cell:atot/dv-indices-and-several-chains')
+        if has_cidx:
+            acc.count('cell:atot/con-indices')
+        for nm in ('join', 'idle', 'scaling'):
+            if case.get(nm):
+                acc.count('cell:atot/%s' % nm)
+        if case.get('obj'):
+            acc.count('cell:atot/objective-%s' % case['obj'])
+        acc.ok(fingerprint(['atot', method, case.get('form'), case['decl'], case['driver'],
+                            [[c['n'], c['m'], (np.array(c['A']) != 0).astype(int).tolist()] for c in case['chains']],
+                            case['didx'], case['cidx'], case['obj'], case['join'], case['idle'], case['calls']]),
+               nontrivial=True, sample=case if case['idx'] % 29 == 0 else None)
+    finally:
+        _state['ctx'] = None
+        for q in ps.values():
+            try:
+                q.cleanup()
+            except Exception:
+                pass
+
+
+# ----------------------------------------------------------------------------------------------
 # framework entry points
 # ----------------------------------------------------------------------------------------------
 def enum_shapes(tier):
@@ -1780,6 +2159,10 @@ def shards(tier, seed):
         out.append({'kind': 'partialsub', 'seed': seed * 1000 + 700 + k, 'n': 30 if tier == 'quick' else 120})
     for k in range(4 if tier == 'quick' else 12):
         out.append({'kind': 'reload', 'seed': seed * 1000 + 900 + k, 'n': 30 if tier == 'quick' else 120})
+    for k in range(3 if tier == 'quick' else 10):
+        out.append({'kind': 'history', 'seed': seed * 1000 + 1100 + k, 'n': 24 if tier == 'quick' else 100})
+    for k in range(2 if tier == 'quick' else 8):
+        out.append({'kind': 'atot', 'seed': seed * 1000 + 1300 + k, 'n': 40 if tier == 'quick' else 150})
     return out
 
 
@@ -1824,11 +2207,17 @@ def run_shard(shard, acc):
             except Exception as e:
                 import traceback
                 acc.viol('harness-error:%s' % type(e).__name__, traceback.format_exc()[-500:], {'kind': 'harness'})
-    elif shard['kind'] in ('calls', 'partialsub', 'reload'):
+    elif shard['kind'] in ('calls', 'partialsub', 'reload', 'history', 'atot'):
         rng = random.Random(shard['seed'])
         for i in range(shard['n']):
             try:
-                if shard['kind'] == 'calls':
+                if shard['kind'] == 'history':
+                    from omv.gen import c03_hist
+                    run_hist_case(c03_hist.gen_hist_case(rng, i), acc)
+                elif shard['kind'] == 'atot':
+                    from omv.gen import c03_hist
+                    run_atot_case(c03_hist.gen_atot_case(rng, i), acc)
+                elif shard['kind'] == 'calls':
                     run_calls_case(gen_calls_case(rng, i), acc)
                 elif shard['kind'] == 'reload':
                     run_reload_case(gen_reload_case(rng, i, '%d_%d' % (shard['seed'], i), shard['seed']), acc)
@@ -1856,6 +2245,10 @@ def run_case(case, acc):
         run_psub_case(case, acc)
     elif case['kind'] == 'reload':
         run_reload_case(case, acc)
+    elif case['kind'] == 'history':
+        run_hist_case(case, acc)
+    elif case['kind'] == 'atot':
+        run_atot_case(case, acc)
 
 
 def coverage_extra(tier, agg):
